@@ -17,8 +17,8 @@ XCross(a, b, c) == IF a[1] # b[1] /\ Min2(a[1],b[1]) <= c /\ c <= Max2(a[1],b[1]
 YCross(a, b, c) == IF a[2] # b[2] /\ Min2(a[2],b[2]) <= c /\ c <= Max2(a[2],b[2])
                    THEN {<<a[1] + ((b[1]-a[1])*(c-a[2])) \div (b[2]-a[2]), c>>} ELSE {}
 \* the divisions above are exact iff these remainders vanish
-XExact(a, b, c) == a[1] = b[1] \/ ((b[2]-a[2])*(c-a[1])) % Abs(b[1]-a[1]) = 0
-YExact(a, b, c) == a[2] = b[2] \/ ((b[1]-a[1])*(c-a[2])) % Abs(b[2]-a[2]) = 0
+XExact(a, b, c) == XCross(a, b, c) = {} \/ ((b[2]-a[2])*(c-a[1])) % Abs(b[1]-a[1]) = 0
+YExact(a, b, c) == YCross(a, b, c) = {} \/ ((b[1]-a[1])*(c-a[2])) % Abs(b[2]-a[2]) = 0
 LatticeOK(bx, path) == \A i \in 1..(Len(path)-1) :
      /\ XExact(path[i], path[i+1], bx[1]) /\ XExact(path[i], path[i+1], bx[3])
      /\ YExact(path[i], path[i+1], bx[2]) /\ YExact(path[i], path[i+1], bx[4])
